@@ -560,6 +560,92 @@ func c06stalledExpiry(attD core.Duty, X, X2 c06item) *schedx.Scenario {
 	return sc
 }
 
+// c06massExpiry: the liveness clause with the REAL deadliner behind the store, at the capacity boundary of the deadliner's
+// output channel: k duties stored through the store expire together while nobody calls the store (the store only
+// drains the deadliner's channel inside Store); afterwards a Store of an unexpired duty and a query for it must
+// return. The deadliner runs on a fake clock moved by the harness; quiescence is decided by synctest.Wait.
+func c06massExpiry(k int) *schedx.Scenario {
+	sc := &schedx.Scenario{Name: fmt.Sprintf("mass-expiry-%d-then-store-and-query", k), Params: map[string]any{"expired": k}, EnvDims: map[string]int{"selmode": 2}}
+	type res struct {
+		preErr              error
+		storeDone, readDone bool // at quiescence, before anything is released
+		storeErr, readErr   error
+	}
+	sc.Setup = func(x *schedx.Exec) {
+		fc := clockwork.NewFakeClock()
+		t0 := fc.Now()
+		dctx, dcancel := context.WithCancel(x.Ctx)
+		defer dcancel()
+		dl := core.NewDeadlinerForT(dctx, x.TB, func(duty core.Duty) (time.Time, bool) {
+			if duty.Slot >= 500 {
+				return t0.Add(1000 * time.Second), true
+			}
+			return t0.Add(10 * time.Second), true
+		}, fc)
+		db := NewMemDB(dl)
+		r := &res{}
+		x.Data = r
+		for i := 0; i < k; i++ {
+			it := c06pro(fmt.Sprintf("P%d", i), "0xaaaa", uint64(100+i), 1)
+			if err := db.Store(x.Ctx, core.NewProposerDuty(uint64(100+i)), core.UnsignedDataSet{it.pk: it.data}); err != nil {
+				r.preErr = err
+				return
+			}
+		}
+		synctest.Wait()
+		fc.Advance(11 * time.Second) // all k duties are due
+		synctest.Wait()
+		live := c06pro("L", "0xaaaa", 500, 1)
+		done := make(chan struct{})
+		stored, read := make(chan error, 1), make(chan error, 1)
+		go func() {
+			defer close(done)
+			err := db.Store(x.Ctx, core.NewProposerDuty(500), core.UnsignedDataSet{live.pk: live.data})
+			stored <- err
+			qctx, qcancel := context.WithTimeout(x.Ctx, time.Second) // bubble time: only passes when everything is blocked
+			defer qcancel()
+			_, err = db.AwaitProposal(qctx, 500)
+			read <- err
+		}()
+		synctest.Wait()
+		select {
+		case r.storeErr = <-stored:
+			r.storeDone = true
+		default:
+		}
+		select {
+		case r.readErr = <-read:
+			r.readDone = true
+		default:
+		}
+		x.Obs("k=%d store=%v read=%v", k, r.storeDone, r.readDone)
+		dcancel() // releases whatever still waits for the deadliner so that the execution can end
+		synctest.Wait()
+		<-done
+	}
+	sc.StateKey = func(x *schedx.Exec) string { return "" }
+	sc.Outcome = func(x *schedx.Exec) string {
+		r := x.Data.(*res)
+		return fmt.Sprintf("store=%v read=%v", r.storeDone, r.readDone)
+	}
+	sc.Check = func(x *schedx.Exec) []schedx.Violation {
+		r := x.Data.(*res)
+		var out []schedx.Violation
+		switch {
+		case r.preErr != nil:
+			out = append(out, schedx.Violation{Signature: "kind=store-failed-without-conflict where=mass-expiry-setup", Description: fmt.Sprintf("store of an unexpired duty failed: %v", r.preErr)})
+		case !r.storeDone:
+			out = append(out, schedx.Violation{Signature: "kind=store-blocked after=mass-expiry", Description: fmt.Sprintf("after %d duties of the store's deadliner expired together, a Store of an unexpired duty never returned", k)})
+		case r.storeErr != nil:
+			out = append(out, schedx.Violation{Signature: "kind=store-failed-without-conflict after=mass-expiry", Description: fmt.Sprintf("after %d duties expired together, the Store of an unexpired duty failed: %v", k, r.storeErr)})
+		case !r.readDone || r.readErr != nil:
+			out = append(out, schedx.Violation{Signature: "kind=query-not-answered after=mass-expiry", Description: fmt.Sprintf("after %d duties expired together, the query for a stored unexpired proposal did not return (done=%v err=%v)", k, r.readDone, r.readErr)})
+		}
+		return out
+	}
+	return sc
+}
+
 func c06scenarios() []*schedx.Scenario {
 	thorough := schedx.Tier() == "thorough"
 	attD := core.NewAttesterDuty(10)
@@ -658,6 +744,9 @@ func c06scenarios() []*schedx.Scenario {
 		T(S("sX", attD, X)), T(RA("ra", 10, 3)), T(S("sY", attD, Y)), T(S("sL", core.NewAttesterDuty(20), late), RA("ra2", 10, 3)),
 	}), []time.Duration{11 * time.Second}, exp, 1))
 	scs = append(scs, c06stalledExpiry(attD, X, X2))
+	for _, k := range []int{1, 9, 10, 11, 12, 25} {
+		scs = append(scs, c06massExpiry(k))
+	}
 	if thorough {
 		add("att-3readers-2writers", 2, T(RA("ra3", 10, 3)), T(RA("ra0", 10, 0)), T(RA("ra4", 10, 4)), T(S("sX", attD, X)), T(S("sZY", attD, Z, Y)))
 		add("pro-att-cancel-mix", 1, T(RP("rp", 10)), T(RA("ra", 10, 3)), T(C("c", "T0")), T(S("sX", attD, X), S("sP", proD, P)), T(S("sQ", proD, Q)))
